@@ -52,6 +52,7 @@ type c11Delete struct {
 	by     string
 }
 type c11Advance struct{ d time.Duration }
+type c11Restart struct{}
 
 func c11Root(b, blk uint64) []byte {
 	var buf [16]byte
@@ -117,6 +118,7 @@ func (c11Sys) Letters(s *c11State) []engine.Letter {
 	for _, d := range []time.Duration{0, 4 * time.Second, c11Period} {
 		ls = append(ls, engine.Letter{Name: fmt.Sprintf("Advance(%s)", d), Data: c11Advance{d}})
 	}
+	ls = append(ls, engine.Letter{Name: "RestartViaGenesis", Data: c11Restart{}})
 	return ls
 }
 
@@ -129,6 +131,11 @@ func (c11Sys) Step(s *c11State, l engine.Letter) (*c11State, string, *engine.Vio
 	switch d := l.Data.(type) {
 	case c11Advance:
 		c.ctx = world.Advance(ctx, d.d)
+		return c, "ok", nil
+	case c11Restart:
+		if err := s.w.RestartViaGenesis(ctx); err != nil {
+			return c, "error", viol("output-log-survives-a-restart", "export / validate / import of the module genesis failed: %v", err)
+		}
 		return c, "ok", nil
 	case c11Propose:
 		lg := s.m[d.b-1]
